@@ -341,6 +341,21 @@ func c06R2(c *Ctx) {
 			c.check(hit == nil, p.fn+"/one-start-per-detection", c.ipos(g), "one start per detection", "the handler can be started twice for one detection")
 		})
 		c.check(n == 1, p.fn+"/one-start-site", c.pos(f.Pos()), "exactly one start site", "the pump does not have exactly one start site")
+		// and the converse, universally: a detected trigger always starts the handler — from the detection, on the
+		// trigger != nil side, neither the next read nor the pump's end is reachable without the start
+		{
+			detI := dets[0].(ssa.Instruction)
+			hitS, pathS := reachFromE(detI.Block(), instrIndex(detI)+1, func(x ssa.Instruction) bool {
+				return x == ssa.Instruction(read) || isReturn(x)
+			}, func(x ssa.Instruction) bool {
+				g, ok := x.(*ssa.Go)
+				return ok && calleeID(&g.Call) == p.start
+			}, func(from, to *ssa.BasicBlock) bool {
+				isNil, _ := factNil(edgeFactsTo(from, to), trig)
+				return isNil
+			})
+			c.check(hitS == nil, p.fn+"/trigger=>start", c.ipos(detI), "a detected trigger always starts the handler before the next read", "a detected trigger can be passed over without starting the handler (the rewritten trigger is forwarded and trz / tsz waits for a client that never answers)", c.pathStr(pathS)...)
+		}
 		// the handler works from the recorded trigger (mode, version, id, port): this detection's trigger is recorded before it starts
 		eachInstr(f, func(in ssa.Instruction) {
 			g, ok := in.(*ssa.Go)
